@@ -516,7 +516,9 @@ Inductive op :=
 | OpDelete (name : Z)                                   (* someone deletes a job *)
 | OpAdd (name : Z) (o : owner) (p : phase) (created finish : option Z)  (* someone creates a job *)
 | OpSuspend (b : bool)
-| OpPolicy (p : policy).
+| OpPolicy (p : policy)
+| OpDeadline (d : option Z)                             (* spec.startingDeadlineSeconds is edited *)
+| OpLimits (sl fl : option Z).                          (* the history limits are edited *)
 
 Definition set_spec (s : cstate) (sp : cspec) : cstate :=
   mkState sp (s_status s) (s_jobs s) (s_next_uid s).
@@ -542,6 +544,12 @@ Definition step (fuel : nat) (s : cstate) (o : op) : cstate * option rout :=
   | OpPolicy p =>
     let sp := s_spec s in
     (set_spec s (mkSpec (c_created sp) (c_suspend sp) p (c_deadline sp) (c_succ_limit sp) (c_fail_limit sp) (c_tz_ok sp)), None)
+  | OpDeadline d =>
+    let sp := s_spec s in
+    (set_spec s (mkSpec (c_created sp) (c_suspend sp) (c_policy sp) d (c_succ_limit sp) (c_fail_limit sp) (c_tz_ok sp)), None)
+  | OpLimits sl fl =>
+    let sp := s_spec s in
+    (set_spec s (mkSpec (c_created sp) (c_suspend sp) (c_policy sp) (c_deadline sp) sl fl (c_tz_ok sp)), None)
   end.
 
 (* run a history, collecting the outputs of the reconciles in order *)
@@ -556,6 +564,61 @@ Fixpoint run (fuel : nat) (s : cstate) (ops : list op) : cstate * list rout :=
 
 Definition created_times (outs : list rout) : list Z :=
   flat_map (fun o => map snd (o_creates o)) outs.
+
+(* ------------------------------------------------------------------ *)
+(* Histories with stale reads and lost status writes                    *)
+(* ------------------------------------------------------------------ *)
+
+(* sync (172-217) reads the CronJob from the informer cache (179) and swallows a
+   failed UpdateStatus (211-213: it returns nil, syncErr with syncErr == nil):
+   a reconcile may start from ANY older status [st_in], and its write-back may
+   be lost.  The API server's jobs are read through the job client, so they are
+   always current. *)
+(* processCtlJobAndActiveJob, first loop (243-260), which matters once the
+   status handed in can be older than the API server's: for an unfinished job
+   of this CronJob that the status does not reference the controller re-reads
+   the CronJob from the API server, and if THAT copy references it, it rebinds
+   its local variable (`cronJob = cjCopy`): the second loop then runs over - and
+   edits - the discarded copy, so the caller's status.active is left as it is and
+   only the update flag survives *)
+Definition switched (mine : list job) (a srv : list jref) : bool :=
+  existsb (fun j => negb (finished (j_phase j)) && negb (in_active a (j_uid j)) && in_active srv (j_uid j)) mine.
+
+Definition cleanup2 (spec : cspec) (st : cstatus) (srv : list jref) (jobs : list job)
+  : cstatus * list job * list Z * bool :=
+  let mine := mine_of jobs in
+  let '(st1, jobs1, hd, upd1) := process_finished spec st mine jobs in
+  if switched mine (st_active st1) srv
+  then let '(_, upd2) := clean_stale jobs mine srv in (st1, jobs1, hd, upd1 || upd2)
+  else let '(a2, upd2) := clean_stale jobs mine (st_active st1) in (set_active st1 a2, jobs1, hd, upd1 || upd2).
+
+Definition reconcile_from (fuel : nat) (s : cstate) (st_in : cstatus) (persist_ok : bool)
+           (now : Z) (fail_create : bool) : cstate * rout :=
+  let '(st1, jobs1, hd, upd1) := cleanup2 (s_spec s) st_in (st_active (s_status s)) (s_jobs s) in
+  let '(st2, jobs2, uid2, o) := decide fuel (s_spec s) st1 jobs1 (s_next_uid s) now fail_create upd1 hd in
+  let persisted := if (o_err o =? E_OK) && o_upd o && persist_ok then st2 else s_status s in
+  (mkState (s_spec s) persisted jobs2 uid2, o).
+
+Inductive op2 :=
+| Fresh (o : op)
+| Stale (st_in : cstatus) (persist_ok : bool) (now : Z) (fail_create : bool)
+| LostWrite (now : Z) (fail_create : bool).   (* reads the current status, its write-back is lost *)
+
+Definition step2 (fuel : nat) (s : cstate) (o : op2) : cstate * option rout :=
+  match o with
+  | Fresh o => step fuel s o
+  | Stale st_in ok now fc => let '(s', r) := reconcile_from fuel s st_in ok now fc in (s', Some r)
+  | LostWrite now fc => let '(s', r) := reconcile_from fuel s (s_status s) false now fc in (s', Some r)
+  end.
+
+Fixpoint run2 (fuel : nat) (s : cstate) (ops : list op2) : cstate * list rout :=
+  match ops with
+  | [] => (s, [])
+  | o :: r =>
+    let '(s1, out) := step2 fuel s o in
+    let '(s2, outs) := run2 fuel s1 r in
+    (s2, match out with Some x => x :: outs | None => outs end)
+  end.
 
 End WithNext.
 
